@@ -354,7 +354,7 @@ func genWhats(r *vu.Rng) []int {
 	switch x := r.Intn(100); {
 	case x < 55:
 		n = 1 + r.Intn(3)
-	case x < 76:
+	case x < 70:
 		n = 4 + r.Intn(4)
 	default:
 		n = 8 + r.Intn(4)
@@ -366,12 +366,24 @@ func genWhats(r *vu.Rng) []int {
 		}
 		return res
 	}
+	if n >= 8 && r.Chance(75) { // pairwise different selectors: two function groups (7 + n-7), never the F-C25b panic
+		classes := [][]int{{1, 2, 3}, {4, 5, 6}, {7}, {8}, {9}, {15}, {17}, {19}, {23, 24, 25}, {26}, {28}}
+		for i := len(classes) - 1; i > 0; i-- {
+			j := r.Intn(i + 1)
+			classes[i], classes[j] = classes[j], classes[i]
+		}
+		res := make([]int, n)
+		for i := range res {
+			res[i] = classes[i][r.Intn(len(classes[i]))]
+		}
+		return res
+	}
 	perm := append([]int(nil), digestPool...)
 	for i := len(perm) - 1; i > 0; i-- {
 		j := r.Intn(i + 1)
 		perm[i], perm[j] = perm[j], perm[i]
 	}
-	if r.Chance(15) { // many functions sharing few selectors: one group with more than 7 functions
+	if r.Chance(8) { // many functions sharing few selectors: one group with more than 7 functions
 		perm = []int{1, 2, 3, 4, 5, 6, 7, 8, 9, 23, 24, 25}
 		return perm[:n]
 	}
@@ -593,13 +605,21 @@ func genQuery(r *vu.Rng) *query {
 	q.store = append(q.store, p0)
 	for p := 1; p < np; p++ {
 		st := cloneStore(r, p0)
-		if r.Chance(50) {
-			switch r.Intn(3) {
-			case 0: // a row disappeared
-				k := r.Intn(nl)
-				if len(st[k]) > 0 {
-					g := r.Intn(len(st[k]))
-					if len(st[k][g]) > 0 {
+		if r.Chance(80) {
+			switch r.Intn(5) {
+			case 0, 3, 4: // a row disappeared
+				for n := 1 + r.Intn(2); n > 0; n-- {
+					var cand [][2]int
+					for k := range st {
+						for g := range st[k] {
+							if len(st[k][g]) > 0 {
+								cand = append(cand, [2]int{k, g})
+							}
+						}
+					}
+					if len(cand) > 0 {
+						c := cand[r.Intn(len(cand))]
+						k, g := c[0], c[1]
 						i := r.Intn(len(st[k][g]))
 						st[k][g] = append(st[k][g][:i:i], st[k][g][i+1:]...)
 					}
@@ -797,12 +817,8 @@ func runTable(o *vu.Out, q *query) {
 			wfStore = false
 		}
 	}
-	var walks []walkRes
-	for _, fm := range []bool{false, true} {
-		for _, fs := range []bool{false, true} {
-			walks = append(walks, q.walk(fm, fs))
-		}
-	}
+	// walks[0]: the rules before the repairs (only for the tags in the input text), walks[1]: the current rules
+	walks := []walkRes{q.walk(false, false), q.walk(true, true)}
 	skipLoss, alias, stale := walks[0].skipLoss, walks[0].alias, walks[0].stale
 	// strict reading of the last clause: rows beyond the limit exist = some function group has more rows inside the window than the limit
 	lim := q.num
@@ -971,15 +987,14 @@ func runTable(o *vu.Out, q *query) {
 	}
 	// the flag and the number of columns of every row, as predicted from which rows each function group inserts:
 	// a function group that inserts a key contributes one column per function of the group (per insertion), one that
-	// does not contributes padding: ONE NaN in the code as it is, one NaN per function with fix_F-C25a.diff.
-	// Any combination of the repairs is accepted; anything else is a defect that is not on record.
+	// does not contributes one NaN per function of the group (F-C25a, c, d are repaired: only the current rules count).
 	okMore, okCols := false, false
-	for _, w := range walks {
+	for _, w := range walks[1:] {
 		okMore = okMore || w.hm == more
 		if w.hm != more {
 			continue
 		}
-		for _, padFixed := range []bool{false, true} {
+		for _, padFixed := range []bool{true} {
 			want := map[keyT]int{}
 			for p := range w.kept {
 				for _, k := range w.kept[p] {
